@@ -160,6 +160,8 @@ def campaign(c):
         r = c.rng.fork('sweep-' + unit)
         N = 1200 if c.quick else 6000
         ds = list(range(0, N)) + [r.below(10 ** 5 if unit == 'seconds' else 10 ** 7) for _ in range(200 if c.quick else 1500)]
+        # and magnitudes beyond 16 / 32 / 53 bits, as far as the pcap limit of 2^32 seconds allows for the unit
+        ds += {'seconds': [65536, 2 ** 24 + 1, 2 ** 31], 'millis': [2 ** 32, 2 ** 32 + 7, 3 * 10 ** 11], 'micros': [2 ** 32, 2 ** 32 + 1, 2 ** 40 + 3], 'nanos': [2 ** 32, 2 ** 32 + 1, 2 ** 53 + 1, 10 ** 18]}[unit]
         B = (14 + 24) * 8
         lines = ['import time;', 'import eth;']
         want, t = [], 0
